@@ -32,6 +32,7 @@ pub const REAL_COMPONENTS: &[&str] = &[
     "lsp-server Connection: initialize handshake, message loop, handle_shutdown",
     "crossbeam channels (capacity 0)",
     "std::fs on tmpfs with real kernel errors",
+    "every simulated command-line process is a forked child of the worker (fresh process-global state, isolated crashes) whose entry point runs on a fresh thread",
     "codespan-reporting rendering and println!/print! output (stdout and stderr of the worker are capture files that are read back per simulated process)",
     "encoding_rs decoding",
 ];
@@ -51,7 +52,7 @@ pub fn plans() -> Vec<Plan> {
             engine: "world",
             level: "exploration",
             quick_runs: 4000,
-            thorough_runs: 400_000,
+            thorough_runs: 200_000,
             rule: "one run = one world (multiset of generated declarations, valid or with one planted fault) realised in 10 (quick) / 24 (thorough) variants drawn from the scheduler's choices: declaration permutation x partition into <=3 files x argv list/directory/mixture x readdir permutation x hash seed (OS randomness) x entry point (cli::check / Project API), plus repeats that differ only in the hash seed. distinct = distinct trace JSON (by 64-bit hash); non-trivial = at least 2 variants of a non-empty world (so the metamorphic oracle compared something).",
             assumptions: &[
                 "the world generator's notion of 'declaration' (one top-level element per text block) is what C06 permutes",
@@ -63,8 +64,8 @@ pub fn plans() -> Vec<Plan> {
             prop: "C03",
             engine: "world",
             level: "exploration",
-            quick_runs: 20_000,
-            thorough_runs: 800_000,
+            quick_runs: 12_000,
+            thorough_runs: 400_000,
             rule: "one run = one faulty module (each stand-alone fault kind of the pool, incl. every name-clash shape) with up to 8 accompanying declarations, optionally one that reuses the faulty declaration's name; variants: the faulty file alone (reference), the company alone (reference for 'company is valid'), and 6 (quick) / 12 (thorough) compositions chosen by the scheduler: faulty file among 0-4 accompanying files or faulty declarations placed inside shared files, argv list/directory/mixture, readdir permutation, hash seed, cli::check or Project API. distinct = distinct trace JSON; non-trivial = the alone-run fails (or the world is a name clash), i.e. the metamorphic oracle applied.",
             assumptions: &[
                 "the analyzer's verdict on the faulty file alone is the reference; worlds whose faulty file does not fail alone are discarded (counted)",
@@ -76,8 +77,8 @@ pub fn plans() -> Vec<Plan> {
             prop: "C13",
             engine: "world",
             level: "fault_enumeration",
-            quick_runs: 12_000,
-            thorough_runs: 1_200_000,
+            quick_runs: 8_000,
+            thorough_runs: 500_000,
             rule: "one run = one generated file set (valid or single-fault world, 1-3 files) on the simulated disk, executed as: check <dir>; check <files> in every argument order (up to 3 files; 1-3 shuffled orders beyond); a mixture (same file twice / file plus its directory); echo and tokenize; and 3 (quick) / 6 (thorough) fault-injecting executions, each with one static fault (missing path, dangling symlink, symlink loop, empty directory, sub-directory, symlink to file, missing directory, no arguments, dotted path) or one dynamic storage fault (vanish, file<->dir, rewrite, truncate, append, dangling symlink) placed at a random fs-point of that execution. distinct = distinct trace JSON; non-trivial = at least 2 executions of a non-empty world.",
             assumptions: &[
                 "exit status = the Result returned by the entry function (main returns it unchanged)",
@@ -90,7 +91,7 @@ pub fn plans() -> Vec<Plan> {
             engine: "world",
             level: "fault_enumeration",
             quick_runs: 1024 + 11_000,
-            thorough_runs: 1024 + 2_000_000,
+            thorough_runs: 1024 + 1_000_000,
             rule: "runs 0..1023 sweep every byte value 0x00-0xFF at four positions (inside a string literal, inside a comment, between tokens, inside an identifier) through check, tokenize, echo and the Project API (exhaustive part). The remaining runs draw a generated world decorated with non-ASCII characters in comments and string literals and either (3/5) store it three times under independently drawn encodings (UTF-8, UTF-8+BOM, UTF-16LE+BOM, UTF-16BE+BOM, Windows-1252) next to a plain UTF-8 reference (twin oracle: verdict, codes, line/column), or (2/5) corrupt the stored bytes of one file (bit flip, truncation anywhere / inside the BOM, garbage prefix/suffix, random binary, concurrent rewrite or truncation at an fs-point) and demand a Result with all labels inside the decoded text on char boundaries. distinct = distinct trace JSON; non-trivial = at least 2 executions.",
             assumptions: &[
                 "texts stored as Windows-1252 are restricted to its repertoire; the case where the Windows-1252 bytes are also valid UTF-8 is inherently ambiguous and skipped",
@@ -115,7 +116,7 @@ pub fn plans() -> Vec<Plan> {
             engine: "lsp",
             level: "exploration",
             quick_runs: 8420 + 2580,
-            thorough_runs: 168_420 + 331_580,
+            thorough_runs: 168_420 + 131_580,
             rule: "runs 0..8419 (quick) / 0..168419 (thorough) enumerate every notification sequence of length <=3 / <=4 over 2 URIs x 5 document classes (valid, lexical error, syntax error, semantic error, depends-on-other-document) x {didOpen, didChange}; the remaining runs are random histories of up to 40 events over 2-4 URIs and generated cross-referencing documents with crash/restart, duplicated delivery, 0/2-change didChange, stale versions and an optional workspace folder. After every didOpen/didChange step three oracles run: exactly one publishDiagnostics(uri, version); equality with a freshly started server (new OS randomness) that opens the current contents; containment equality with the real cli::check on a directory holding the same contents. distinct = distinct trace JSON; non-trivial = at least one edit event.",
             assumptions: &[
                 "documents are ASCII so that byte, char and UTF-16 columns coincide",
